@@ -265,6 +265,24 @@ let handle (x : Sexp.t) : string =
     (* 3. strings, true/false *)
     let mstr = List.map (fun s -> Sexp.Str (ocamlstr s)) c.cx_strings in
     if mstr <> strings_s then diff "strings" (Printf.sprintf "impl=%s model=%s" (Sexp.to_string (Sexp.List strings_s)) (Sexp.to_string (Sexp.List mstr)));
+    (* 4. sampled references unfolded into trees: the shared tree dumper of the harness (dump_expr over ctx[e])
+          against Model.cx_tree, compared in the shared tree type of Model/Expr.v *)
+    let rec nat_of_int k = if k <= 0 then O else S (nat_of_int (k - 1)) in
+    let all_canonical = List.for_all (fun o ->
+        match o with
+        | Sexp.List (Sexp.Atom "lit" :: w :: ws :: _) | Sexp.List [Sexp.Atom "bld"; Sexp.List (Sexp.Atom "lit" :: w :: ws :: _)] ->
+            let w = fnum w and ws = words ws in
+            let v = cx_value_of_words ws in not (N.leb (N.pow n_two w) v) && cx_words_of w v = ws
+        | _ -> true) ops_s in
+    if all_canonical then
+      List.iter (function
+          | Sexp.List [r; tree] ->
+              let impl_tree = expr_of_sexp tree in
+              (match cx_tree (nat_of_int 320) c (fnum r) with
+               | Some t -> if not (expr_eqb t impl_tree) then
+                     diff "tree" (Printf.sprintf "ref %s: impl=%s model=%s" (Sexp.atom r) (Sexp.to_string tree) (Sexp.to_string (sexp_of_expr t)))
+               | None -> diff "tree" (Printf.sprintf "ref %s: the model has no tree, impl=%s" (Sexp.atom r) (Sexp.to_string tree)))
+          | _ -> ()) (match Sexp.field_opt "trees" fs with Some l -> l | None -> []);
     let mtf = [dec_of_n c.cx_true; dec_of_n c.cx_false] in
     if tf <> mtf || tf0 <> mtf then diff "true-false" (String.concat " " (tf0 @ tf @ mtf));
     (* ---------------- property oracle on the implementation's observations *)
